@@ -685,6 +685,8 @@ def run(ctx):
     collect = []   # (world, text, real result, label, feature) for the correspondence
     run_corpus(ctx, collect)
     respell_probe(ctx)
+    from corr import C06_hunt1
+    C06_hunt1.run(ctx)           # named probe (no randomness): literals at custom scalars of a code-built schema
     n_worlds = ctx.n(8, 40)
     docs_per_world = ctx.n(3, 6)
     budget = 17 if ctx.tier == "quick" else 175
@@ -869,6 +871,9 @@ def replay(ctx, data):
     if inp.get("part") == "model":
         from corr import C06_model
         return C06_model.replay(ctx, data)
+    if inp.get("part") == "hunt1":
+        from corr import C06_hunt1
+        return C06_hunt1.replay(ctx, data)
     schema = build_schema(inp["sdl"])
     kind = inp.get("kind")
     if kind == "valid":
